@@ -66,4 +66,76 @@ theorem pow_eq (F : FieldOps α) (hL : AddLaws F) (p : List α) (e : Nat) (he : 
       obtain ⟨r, hr⟩ := powLoop_total (slowSquare F) (fun acc => mul F acc p) e (Nat.log2 e) (Nat.log2 e + 1) (one F)
       simp only [hr, Option.bind_some]
 
+/-! ### `fast_pow` -/
+
+/-- regenerated dispatcher `square` on top of the regenerated `fast_square` = hand model `square` at the cut-off 64 -/
+theorem square_full_eq (F : FieldOps α) (hL : AddLaws F) (T : Transform α) (p : List α) :
+    TF.Gen.Poly.square F (TF.Gen.Poly.fast_square F T.ntt T.intt) p = square F 64 T p := by
+  rw [square_dispatch, slow_square_eq F hL, fast_square_eq]
+  unfold square slowSquare degree
+  cases h : normalize F p with
+  | nil => simp
+  | cons c cs =>
+    have h1 : ¬ (((c :: cs).length : Int) - 1 = -1) := by simp only [List.length_cons]; omega
+    have h2 : (((c :: cs).length : Int) - 1).toNat = cs.length := by simp only [List.length_cons]; omega
+    simp only [h1, if_false, h2]
+
+/-- regenerated dispatcher `multiply` on top of the regenerated `fast_multiply` = hand model `multiply` at the regenerated
+    threshold -/
+theorem multiply_full_eq (F : FieldOps α) (hL : AddLaws F) (T : Transform α) (a b : List α) :
+    TF.Gen.Poly.multiply F F F F.mul (TF.Gen.Poly.fast_multiply F F F F.mul T.ntt T.ntt T.intt) a b
+      = multiply F (TF.Gen.FAST_MULTIPLY_CUTOFF_THRESHOLD : Int) T a b := by
+  rw [multiply_dispatch, naive_multiply_eq F F F hL, fast_multiply_eq]
+  rfl
+
+theorem fast_pow_for_eq (F : FieldOps α) (hL : AddLaws F) (T : Transform α) (p : List α) (e bl : Nat) (hbl : bl < 32) :
+    ∀ (n : Nat) (acc : List α), n ≤ bl + 1 →
+      TF.Gen.Poly.fast_pow_for F (TF.Gen.Poly.fast_square F T.ntt T.intt)
+          (TF.Gen.Poly.fast_multiply F F F F.mul T.ntt T.ntt T.intt) p e bl (List.range' (bl + 1 - n) n) acc
+        = powLoop (square F 64 T) (fun acc => multiply F (TF.Gen.FAST_MULTIPLY_CUTOFF_THRESHOLD : Int) T p acc) e bl n acc := by
+  intro n
+  induction n with
+  | zero => intro acc _; simp [TF.Gen.Poly.fast_pow_for, powLoop]
+  | succ n ih =>
+    intro acc hn
+    have hsub : usub? bl (bl + 1 - (n + 1)) = some (bl - (bl + 1 - (n + 1))) := by
+      simp only [usub?]; rw [if_pos (by omega)]
+    have hshr : ushr? 32 e (bl - (bl + 1 - (n + 1))) = some (e >>> (bl - (bl + 1 - (n + 1)))) := by
+      simp only [ushr?]; rw [if_pos (by omega)]
+    have hnext : bl + 1 - (n + 1) + 1 = bl + 1 - n := by omega
+    simp only [List.range'_succ, TF.Gen.Poly.fast_pow_for, square_full_eq F hL, powLoop, hnext, bind, pure]
+    cases hs : square F 64 T acc with
+    | none => simp
+    | some acc1 =>
+      simp only [Option.bind_some, hsub, hshr, multiply_full_eq F hL]
+      by_cases hb : (e >>> (bl - (bl + 1 - (n + 1))) &&& 1) = 1
+      · simp only [hb, beq_self_eq_true, if_true]
+        cases hm : multiply F (TF.Gen.FAST_MULTIPLY_CUTOFF_THRESHOLD : Int) T p acc1 with
+        | none => simp
+        | some acc2 => simp only [Option.bind_some]; exact ih _ (by omega)
+      · have hb' : ((e >>> (bl - (bl + 1 - (n + 1))) &&& 1) == 1) = false := by simpa using hb
+        simp only [hb', Bool.false_eq_true, if_false, Option.bind_some]
+        exact ih _ (by omega)
+
+/-- **regenerated `fast_pow` (on top of the regenerated `square`, `multiply`, `fast_square`, `fast_multiply` and arbitrary
+    transforms) = hand model `fastPow`** at the cut-off 64 and the regenerated multiplication threshold, for every `u32`
+    exponent and every storage, including every panic of the transforms -/
+theorem fast_pow_eq (F : FieldOps α) (hL : AddLaws F) (T : Transform α) (p : List α) (e : Nat) (he : e < 2 ^ 32) :
+    TF.Gen.Poly.fast_pow F (TF.Gen.Poly.fast_square F T.ntt T.intt)
+        (TF.Gen.Poly.fast_multiply F F F F.mul T.ntt T.ntt T.intt) p e
+      = fastPow F 64 (TF.Gen.FAST_MULTIPLY_CUTOFF_THRESHOLD : Int) T p e := by
+  by_cases h0 : e = 0
+  · subst h0; simp [TF.Gen.Poly.fast_pow, fastPow, one_eq]
+  · have hbl : Nat.log2 e < 32 := (Nat.log2_lt h0).2 he
+    have hfor := fast_pow_for_eq F hL T p e (Nat.log2 e) hbl (Nat.log2 e + 1) (one F) (Nat.le_refl _)
+    simp only [Nat.sub_self] at hfor
+    have hb : (e == 0) = false := by simpa using h0
+    simp only [TF.Gen.Poly.fast_pow, fastPow, hb, Bool.false_eq_true, if_false, degree_eq, Option.bind_some, one_eq, zero_eq,
+      Nat.sub_zero, hfor]
+    by_cases hd : degree F p < 0
+    · simp [hd, zero]
+    · simp only [hd, decide_false, Bool.false_eq_true, if_false]
+      cases powLoop (square F 64 T) (fun acc => multiply F (TF.Gen.FAST_MULTIPLY_CUTOFF_THRESHOLD : Int) T p acc) e
+        (Nat.log2 e) (Nat.log2 e + 1) (one F) <;> rfl
+
 end TF.GenBridge.Poly
